@@ -36,6 +36,8 @@ func NewPoolSystem(a Adapter, nsubs int, ops []string) *PoolSystem {
 	if len(units) > 3 {
 		units = []int{a.Usable[0], a.Usable[1], a.Usable[len(a.Usable)-1]}
 	}
+	// requests for a specific prefix also name the prefix just past the pool's end and one further out
+	outside := []int{a.Geo.NUnits(), a.Geo.NUnits() + 2}
 	for sub := 1; sub <= nsubs; sub++ {
 		for _, o := range []string{"alloc", "release", "renew", "allocf"} {
 			if has(o) {
@@ -47,11 +49,16 @@ func NewPoolSystem(a Adapter, nsubs int, ops []string) *PoolSystem {
 				for _, u := range units {
 					s.events = append(s.events, core.Event{"op": o, "sub": sub, "arg": u})
 				}
+				if sub == 1 {
+					for _, u := range outside {
+						s.events = append(s.events, core.Event{"op": o, "sub": sub, "arg": u})
+					}
+				}
 			}
 		}
 	}
 	if has("relunit") {
-		for _, u := range units {
+		for _, u := range append(append([]int{}, units...), outside[0]) {
 			s.events = append(s.events, core.Event{"op": "relunit", "sub": 0, "arg": u})
 		}
 	}
